@@ -36,7 +36,7 @@ func (c c10) Run(ctx *core.Ctx) error {
 		switch {
 		case cs.Name == "i" && len(cs.Sess.Ops) == 4 && cs.Sess.Ops[1].V == "I80" && cs.Sess.Ops[2].Op == "del":
 			return true
-		case cs.Name == "ii-reopen-compact", cs.Name == "iii-two-sessions", cs.Name == "ii-compact-excluding-oldest":
+		case cs.Name == "ii-reopen-compact", cs.Name == "iii-two-sessions", cs.Name == "ii-compact-excluding-oldest", cs.Name == "ii-compact-3-tables":
 			return true
 		case cs.Name == "vi-hold-flusher-3", cs.Name == "vi-hold-compactor-2", cs.Name == "vi-hold-compactor-7":
 			return true
